@@ -35,12 +35,12 @@ MANIFEST = {
 
 M = 4  # vector size
 ENV = {"scalars": [{"name": "y"}, {"name": "z"}], "vectors": [{"name": "x", "n": M}],
-       "matrices": [{"name": "A", "r": 2, "c": 2, "sym": False}], "params": [{"name": "p", "value": 0.5}], "views": {}}
+       "matrices": [{"name": "A", "r": 2, "c": 2, "sym": False}], "params": [{"name": "p", "value": 0.5}, {"name": "q", "value": 3.0}], "views": {}}
 NAMES = ["A[0,0]", "A[0,1]", "A[1,0]", "A[1,1]", "x[0]", "x[1]", "x[2]", "x[3]", "y", "z"]
 XV = ["vvar", "x"]
 SAFE_FUNCS = [f for f in FUNCS]
 TERM_KINDS = (["var", "scaled", "prod", "pow2", "pow3", "param", "vsum", "dot", "lincomb", "norm2", "norm1", "quad", "vpowsum",
-               "vunsum", "msum", "sqshift", "yvar", "lincomb-rev", "vsum-rev", "quad-rev", "divconst"] + ["fn:" + f for f in SAFE_FUNCS])
+               "vunsum", "msum", "sqshift", "yvar", "lincomb-rev", "vsum-rev", "quad-rev", "divconst", "param2", "powparam", "powvar"] + ["fn:" + f for f in SAFE_FUNCS])
 AFFINE_KINDS = ["var", "scaled", "yvar", "lincomb", "lincomb-rev", "vsum", "vsum-rev", "divconst"]
 XR = ["slice", ["vvar", "x"], None, None, -1]
 
@@ -66,6 +66,15 @@ def term(kind, i, for_mul, scale):
         r = ["bin", "**", xi, ["const", "pyint", 3]]
     elif kind == "param":
         r = ["bin", "*", ["param", "p"], xi]
+    elif kind == "param2":
+        # a SECOND parameter in the same tree
+        r = ["bin", "*", ["param", "q"], xj]
+    elif kind == "powparam":
+        # an exponent that is not a literal and does not depend on the variables: (x_i + 2) ** q
+        r = ["bin", "**", ["bin", "+", xi, _c(2.0)], ["param", "q" if i % 2 else "p"]]
+    elif kind == "powvar":
+        # ... or is another variable: (x_i + 2) ** y
+        r = ["bin", "**", ["bin", "+", xi, _c(2.0)], ["var", "y"]]
     elif kind == "vsum":
         r = ["vsum", XV]
     elif kind == "dot":
@@ -203,7 +212,7 @@ def _check(case):
 
     n, op, regime = case["n"], case["op"], case["regime"]
     left_r, bal_r, terms = recipes(case)
-    pv = {"p": 0.5}
+    pv = {"p": 0.5, "q": 3.0}
     pt = case["point"]
     classes = ["regime:" + regime, "op:" + op, "n>=T" if n >= case["T"] else "n<T"] + ["kind:" + k for k in set(case["kinds"])]
     desc = f"{sample_repr(case)}"
